@@ -390,6 +390,30 @@ Section Admin.
     destruct (run repaired s1 r) as [s2 l] eqn:E2. cbn [snd] in *. constructor; assumption.
   Qed.
 
+  (* ---- the busy window: what the handler takes it answers; what arrives while it is busy is dropped *)
+  Notation trun := (trun dec_dest dec_stream api).
+  Notation tstep := (tstep dec_dest dec_stream api).
+
+  Definition taken_answered (o : option answer) : Prop :=
+    match o with Some a => answered_with_json a | None => True end.
+
+  Lemma command_taken_is_answered evs : forall t, Forall taken_answered (snd (trun repaired t evs)).
+  Proof.
+    induction evs as [|e r IH]; intros t; cbn [AdminApi.trun]; [constructor|].
+    destruct e as [c|]; cbn [AdminApi.tstep].
+    - destruct (t_busy t).
+      + specialize (IH t). destruct (trun repaired t r) as [t2 l]. cbn [snd] in *. constructor; [exact I|exact IH].
+      + pose proof (every_command_answered (t_st t) c) as A.
+        destruct (step repaired (t_st t) c) as [s' a]. cbn [snd] in A.
+        specialize (IH (mkt s' true)). destruct (trun repaired (mkt s' true) r) as [t2 l]. cbn [snd] in *.
+        constructor; [exact A|exact IH].
+    - specialize (IH (mkt (t_st t) false)). destruct (trun repaired (mkt (t_st t) false) r) as [t2 l]. exact IH.
+  Qed.
+
+  (* a command that arrives while the handler is busy changes nothing and is never answered *)
+  Lemma busy_arrival_dropped fx t c : t_busy t = true -> tstep fx t (TArrive c) = (t, Some None).
+  Proof. intros H. cbn [AdminApi.tstep]. rewrite H. reflexivity. Qed.
+
   (* a command answered with an error leaves both tables as they were (any variant of the code) *)
   Lemma invalid_keeps_rules fx s c t : snd (step fx s c) = Err t -> fst (step fx s c) = s.
   Proof. unfold AdminApi.step. split_step; cbn [snd fst]; intros H; try discriminate; reflexivity. Qed.
@@ -509,3 +533,12 @@ Lemma pinned_loses_api_rule dd ds api :
   dlk k_apiRule (dests s) = Some (api_rule api) /\
   dlk k_apiRule (dests (fst (step dd ds api pinned s c_delete_deleteAll))) = None.
 Proof. split; reflexivity. Qed.
+
+(* ---- F17: two commands back to back on the control topic: the second arrives while the handler is busy with
+   the first and is never answered (for every oracle, every state) *)
+Definition c_healthcheck := Some (mkc k_healthcheck [] [] None).
+
+Lemma second_back_to_back_command_unanswered dd ds api s :
+  snd (trun dd ds api repaired (mkt s false) [TArrive c_healthcheck; TArrive c_healthcheck; TReady]) =
+  [Some (Ok (print (j_one k_healthcheck (bytes_of "ok")))); None].
+Proof. reflexivity. Qed.
